@@ -67,6 +67,13 @@ class U:
         a = Arr.new(v, region=region)
         return a
 
+    def fpvec(self, name, n, region="FRESH"):
+        """array of IEEE doubles (FP mode units)"""
+        A = z3.Array(self.path.fresh_name(name), z3.IntSort(), z3.Float64())
+        path = self.path
+        v = Vec(n, lambda i: z3.Select(A, path.auto_index(i, n)), "real", arr=A, name=name)
+        return Arr.new(v, region=region)
+
     def cls(self, qualname) -> ClassInfo:
         c = self.repo.lookup(qualname)
         if not isinstance(c, ClassInfo):
